@@ -69,9 +69,64 @@ def many_paths_rebase(sc):
     sc.blame_files = tracked + rng.sample(names, 6)
 
 
+def modify_delete_rebase(sc, cherry=False):
+    """A pair whose AI-touched file exists in the original commit but NOT in the rewritten one: commit A1 has agent edits of F and H,
+    A2 has an agent edit of F again; upstream deletes F. The rebase (or the cherry-pick of A1) stops on the modify/delete conflict; A1 is
+    resolved with `git rm F` (the commit survives through H), A2 by keeping the file. The precondition fails for A1: no copying."""
+    rng = sc.rng
+    base = sc.current_branch() or "main"
+    tr = [f for f in sc.files if f in sc.tracked() and sc.read(f)]
+    if len(tr) < 2:
+        return sc.op_rebase(kind="plain")
+    F, H = rng.sample(tr, 2)
+    who = rng.choice(sc.sessions)
+    feat = sc.new_branch_name("md")
+    sc.g("checkout", "-q", "-b", feat)
+    sc.do_edit(author=who, f=F, kinds=["ins"]); sc.do_edit(author=who, f=H, kinds=["ins"]); sc.commit_all("md1: agent edits F and H")
+    a1 = sc.head()
+    sc.do_edit(author=who, f=F, kinds=["ins"]); sc.commit_all("md2: agent edits F again")
+    sc.g("checkout", "-q", base)
+    sc.g("rm", "-q", "--", F); sc.commit_all("upstream deletes F")
+    if cherry:
+        sc.g("cherry-pick", a1)
+        sc.ops.append("cherry-pick:modify-delete")
+        if sc.in_progress() or sc.unmerged():
+            sc.g("rm", "-q", "--", F)
+            sc.g("-c", "core.editor=true", "cherry-pick", "--continue")
+        if sc.in_progress():
+            sc.g("cherry-pick", "--abort"); sc.inconclusive = "cherry-pick did not finish"
+        return
+    sc.g("checkout", "-q", feat)
+    sc.g("rebase", base)
+    sc.ops.append("rebase:modify-delete")
+    step = 0
+    while sc.in_progress() and step < 4:
+        step += 1
+        if step == 1:
+            sc.g("rm", "-q", "--", F)                  # A1: the file stays deleted
+        else:
+            sc.g("add", "--", F)                       # A2: keep the branch's version of the file
+        sc.g("-c", "core.editor=true", "rebase", "--continue")
+    if sc.in_progress():
+        sc.g("rebase", "--abort"); sc.g("checkout", "-q", "-f", base); sc.inconclusive = "rebase did not finish"
+        return
+    sc.g("checkout", "-q", base); sc.g("merge", "-q", "--ff-only", feat)
+
+
 def script(sc):
     rng = sc.rng
     C.setup_repo(sc, 3, 10)
+    if sc.index % 24 == 11 or sc.index % 24 == 17:
+        # a tracked file that the rewritten commit no longer has (modify/delete conflict resolved by deleting)
+        sc.commit_all("pre")
+        modify_delete_rebase(sc, cherry=(sc.index % 24 == 17))
+        sc.after_step("modify-delete")
+        if sc.viol or sc.inconclusive or sc.in_progress():
+            return
+        sc.commit_all("final")
+        sc.after_step("final")
+        sc.check_blame_tip("final", rule="C15", complete=False)
+        return
     if sc.index % 24 == 5:
         # scale case (a few per run): the range tracks more than 1000 agent-touched paths
         sc.commit_all("pre")
